@@ -231,6 +231,7 @@ func runC18(cx *Ctx, r *Report) {
 	}
 	// ---------------- range by construction
 	cx.c18Range(r)
+	cx.sharedNumberRule(r, []string{"random"}, "number-not-shared-mutated")
 	// ---------------- due height of a new request
 	{
 		evs := per["RequestRandom"]
